@@ -87,13 +87,13 @@ def boundary_descr(draw):
 
 
 multiword_str = st.sampled_from(["hello wide world", "fast mode", "a b", "two words", "AA-AA", "left-to-right text", "x y z w", "North West"])
+# legal non-ASCII identifiers (already NFKC-normalised, as the Python parser would make them)
+unicode_names = st.sampled_from(["prénom", "größe", "naïve", "名前", "住所", "π", "ñandú", "данные", "x²".replace("²", "_2"), "café_size"])
 rich_names = st.one_of(
-    names, names,
+    names, names, unicode_names,
     st.from_regex(r"_?[a-z][a-zA-Z0-9]{0,6}([A-Z][a-z0-9]{1,4}){0,2}", fullmatch=True).filter(_name_ok),
     st.from_regex(r"[A-Z][A-Z0-9_]{0,5}[A-Z0-9]", fullmatch=True).filter(_name_ok),
 )
-# legal non-ASCII identifiers (already NFKC-normalised, as the Python parser would make them)
-unicode_names = st.sampled_from(["prénom", "größe", "naïve", "名前", "住所", "π", "ñandú", "данные", "x²".replace("²", "_2"), "café_size"])
 long_descr = st.builds(lambda s, dot: s + ("." if dot else ""), sentence(10, 22), st.booleans())
 # Literal members: letters only, or with digits / underscores / a dash (`float32`, `channels_first`, `utf-8`)
 lit_member = st.one_of(
